@@ -1,30 +1,43 @@
-import Enc.Model.Json.Scan
-import Enc.Spec.Json.Grammar
+import Enc.Lemmas.JsonValid
 /-!
 # C05 — json.Valid and every syntax-only path accept exactly RFC 8259 JSON
-Property theorems only.
+Property theorems only (lemmas: Enc/Lemmas/Json*.lean).
 -/
 namespace Enc.Props.C05
 open Enc Enc.Model.Json
 
-theorem skipSpacesN_eq_ws (b : Bytes) : skipSpacesN b = Spec.Json.ws b := by
-  induction b with
-  | nil => rfl
-  | cons c r ih => simp only [skipSpacesN, Spec.Json.ws, isSpace, Spec.Json.isWs, ih]; rfl
+/-- **Main theorem.** For EVERY byte string, the model of `json.Valid` (skipSpaces, whole-input flags, the recursive
+descent with its word-at-a-time quote search and flag-guarded early return, trailing white space) accepts exactly the
+RFC 8259 language defined by the independent recogniser `Spec.Json.validRFC` — no bound on length or nesting. -/
+theorem valid_eq_RFC8259 (b : Bytes) : valid b = Spec.Json.validRFC b :=
+  Lemmas.JsonValid.valid_eq_validRFC b
+
+/-- … and hence what `encoding/json.Valid` accepts, for every input no deeper than the standard library's nesting limit
+(stated with the sufficient condition `length ≤ 10000`). -/
+theorem valid_eq_std_partial (b : Bytes) (hb : b.length ≤ 10000) : valid b = Spec.Json.validStd b :=
+  Lemmas.JsonValid.valid_eq_validStd b hb
+
+/- The full statement "Valid = encoding/json.Valid for every byte string" is FALSE on the unchanged tree (known finding
+json-no-depth-limit): the two specifications differ beyond 10000 levels and the code follows `validRFC`
+(`#eval` on 10001 nested brackets: valid = validRFC = true, validStd = false; the harness replays that witness on the
+real code and on encoding/json in every run: op json.validdepth 10001). -/
+
+/-- the word-at-a-time search finds the FIRST closing-quote candidate exactly like a byte-wise scan -/
+theorem findQuote_is_indexByte (b : Bytes) : findQuote b = (indexByte (b.drop 1) 0x22).map (· + 2) :=
+  Lemmas.JsonScan.findQuote_spec b
+
+/-- every recursive-descent entry used by the syntax-only consumers (RawMessage, MarshalJSON output, skipped values,
+Decoder framing) recognises exactly a grammar `value`, for any flags that are sound for the input and enough fuel -/
+theorem parseValue_is_grammar (fl : PFlags) (f f' d : Nat) (b : Bytes)
+    (hf : 3 * b.length ≤ f) (hf' : 2 * b.length ≤ f') (hd : b.length ≤ d) (hq : Lemmas.JsonString.QSound fl b) :
+    Lemmas.JsonString.toOpt (parseValue fl f b) = Spec.Json.value f' d b :=
+  Lemmas.JsonValue.parseValue_toOpt fl f f' d b hf hf' hd hq
 
 /-- `skipSpaces` (with its `b[0] <= 0x20` shortcut) removes exactly RFC 8259 white space -/
-theorem skipSpaces_eq_ws (b : Bytes) : skipSpaces b = Spec.Json.ws b := by
-  cases b with
-  | nil => rfl
-  | cons c r =>
-    simp only [skipSpaces]
-    split
-    · exact skipSpacesN_eq_ws _
-    · rename_i h
-      have hc : ¬ (c ≤ 0x20) := h
-      have : Spec.Json.isWs c = false := by
-        simp only [Spec.Json.isWs, Bool.or_eq_false_iff, beq_eq_false_iff_ne, ne_eq]
-        refine ⟨⟨⟨?_, ?_⟩, ?_⟩, ?_⟩ <;> (intro he; subst he; exact hc (by decide))
-      simp [Spec.Json.ws, this]
+theorem skipSpaces_eq_ws (b : Bytes) : skipSpaces b = Spec.Json.ws b := Lemmas.JsonWs.skipSpaces_eq_ws b
+
+/-- non-vacuity -/
+example : valid [0x5b, 0x31, 0x2c, 0x22, 0x61, 0x22, 0x5d] = true := by decide +kernel
+example : valid [0x5b, 0x31, 0x20, 0x32, 0x5d] = false := by decide +kernel
 
 end Enc.Props.C05
